@@ -950,6 +950,16 @@ theorem compactMerged_eraseVP (s : Lsm) (cd : CompactDef) :
   congr 2
   split <;> simp [List.map_reverse]
 
+theorem keyRange_eraseVP (t : Tbl) : t.eraseVP.keyRange = t.keyRange := by
+  unfold Tbl.keyRange
+  rw [smallest_eraseVP, biggest_eraseVP]
+  cases t.smallest <;> cases t.biggest <;> rfl
+
+theorem rangeOfTables_eraseVP (l : List Tbl) : rangeOfTables (l.map Tbl.eraseVP) = rangeOfTables l := by
+  unfold rangeOfTables
+  rw [List.foldl_map]
+  simp only [keyRange_eraseVP]
+
 theorem compactOverlap_eraseVP (s : Lsm) (cd : CompactDef) :
     compactOverlap s.eraseVP cd = compactOverlap s cd := by
   unfold compactOverlap
